@@ -118,13 +118,29 @@ EXTRA_PROJECTS: Dict[str, Dict[str, str]] = {
                             "pkg/mod.py": '"""\nModule with sections.\n\nSection One\n===========\n\nText one.\n\nSection Two\n===========\n\nText two.\n"""\n'
                                           '__docformat__ = "restructuredtext"\ndef f():\n    """Function f."""\n'},
 }
-EXTRA_SRC = {"redefined-base": ["m.py"], "non-ascii": ["m.py"], "redefined-members": ["pkg"], "sectioned-docstring": ["pkg"]}
+EXTRA_PROJECTS["main-module"] = {"pkg/__init__.py": '"""Package."""\n',
+                                 "pkg/__main__.py": '"""Entry point."""\ndef main():\n    """Run."""\n',
+                                 "pkg/mod.py": '"""Module."""\ndef f():\n    """Function f."""\n'}
+EXTRA_SRC = {"main-module": ["pkg"], "redefined-base": ["m.py"], "non-ascii": ["m.py"], "redefined-members": ["pkg"], "sectioned-docstring": ["pkg"]}
+
+# the project of spec/PrivacyHistory.tla: the class K = Moved with methods F = mm, G = other, re-exported by api
+HISTORY_PROJECT = {
+    "_impl.py": '"""Implementation module."""\nclass Moved:\n    """Class Moved."""\n    def mm(self):\n        """Method mm."""\n'
+                '    def other(self):\n        """Method other, see L{mm}."""\n',
+    "api.py": '"""Public API."""\nfrom _impl import Moved\n__all__ = [\'Moved\']\n',
+}
+CFG_HISTORY = """SPECIFICATION Spec
+CONSTANTS CacheKey = "{key}"
+          RuleSetIds = {rids}
+CONSTRAINT Emit
+INVARIANT ObservedRight
+"""
 
 ALL_PRODS = ["namespace", "childTable", "baseTable", "baseName", "classSignature", "subclasses", "overrides",
              "overriddenIn", "headerLink", "inhierarchy", "docstring", "memberDoc", "summaryDoc", "annotation",
              "sidebarTitle", "sidebarItem", "nav", "moduleIndex", "classIndex", "nameIndex", "letterlinks",
              "undocced", "indexRoots", "indexStatic"]
-ENTRY_KINDS = ["table", "detail", "sidebar", "moduleIndex", "classIndex", "nameIndex", "undocced", "indexRoots"]
+ENTRY_KINDS = ["table", "detail", "sidebar", "moduleIndex", "classIndex", "nameIndex", "undocced", "indexRoots", "overridesNote"]
 # real packages: targets of docstring / annotation references are not part of the projected object model
 STRUCTURAL_PRODS = [p for p in ALL_PRODS if p not in ("classSignature", "docstring", "memberDoc", "summaryDoc", "annotation")]
 THEMES = ["base", "classic", "readthedocs"]
@@ -176,6 +192,23 @@ def run_job(job: Dict[str, Any]) -> Dict[str, Any]:
             srcs = realise(job["feat"], Path(job["root"]))
             privacy = job["privacy"]
             cwd: Optional[str] = job["root"]
+        elif job["kind"] == "history":
+            shutil.rmtree(job["root"], ignore_errors=True)
+            shutil.rmtree(job["out"], ignore_errors=True)
+            Path(job["root"]).mkdir(parents=True)
+            for rel, text in HISTORY_PROJECT.items():
+                (Path(job["root"]) / rel).write_text(text)
+            old = os.getcwd()
+            os.chdir(job["root"])
+            try:
+                system, asked = sc.run_history(job["root"], job["hist"], job["out"], job["privacy"], job["theme"],
+                                               ["--sidebar-expand-depth=%d" % job["depth"], "--sidebar-toc-depth=%d" % job["tocdepth"]])
+            finally:
+                os.chdir(old)
+            res = {"job": job, "rc": 0, "log": "", "asked": asked, "objs": sc.project_system(system), "site": sc.crawl(job["out"])}
+            shutil.rmtree(job["root"], ignore_errors=True)
+            shutil.rmtree(job["out"], ignore_errors=True)
+            return res
         elif job.get("project"):
             shutil.rmtree(job["root"], ignore_errors=True)
             for rel, text in EXTRA_PROJECTS[job["project"]].items():
@@ -256,7 +289,7 @@ class View:
 
     def __init__(self, case: Dict[str, Any]):
         last_exact = {r["m"]: r["p"] for r in case.get("rules", [])}          # the manual: the LAST exact rule wins
-        self.o = {i: (dict(o, priv=last_exact[i]) if i in last_exact and o["name"] != "__main__" else o)
+        self.o = {i: (dict(o, priv=last_exact[i]) if i in last_exact else o)
                   for i, o in case["objs"].items()}
         self.privacy_not_as_documented = sorted(i for i, o in case["objs"].items() if self.o[i]["priv"] != o["priv"])
         self.encfiles = set(case["site"].get("encfiles", ()))
@@ -275,6 +308,11 @@ class View:
         self.superseded = {i for i in ids if i not in self.hidden and not self.in_tree(i)}
         self.superseded_urls = {(self.o[i]["file"], self.o[i]["frag"]) for i in self.superseded}
         self.hidden_root_files = {self.o[r]["file"] for r in self.hidden if self.o[r]["parent"] == "none"}
+        self._privctx: Dict[str, bool] = {}
+        self.main_hidden = {i for i in ids if self.in_hidden_main(i)}
+        # classIndex.html nodes of PRIVATE classes that must carry the marker (no visible, non-private subclass below)
+        self.class_node_urls = {(self.o[i]["file"], self.o[i]["frag"]) for i in ids
+                                if i not in self.hidden and self.o[i]["priv"] == "PRIVATE" and not self.excused(i, {i})}
         self.priv_urls = {(self.o[i]["file"], self.o[i]["frag"]) for i in ids
                           if i not in self.hidden and self.o[i]["priv"] == "PRIVATE"}
 
@@ -292,6 +330,29 @@ class View:
                                                                                     and self.in_tree(o["parent"])))
         return self._intree[i]
 
+    def priv_ctx(self, i: str) -> bool:
+        if i not in self._privctx:
+            o = self.o[i]
+            self._privctx[i] = o["priv"] != "PUBLIC" or (o["parent"] != "none" and o["parent"] in self.o and self.priv_ctx(o["parent"]))
+        return self._privctx[i]
+
+    def excused(self, c: str, seen: Set[str]) -> bool:
+        for x in self.o[c]["subclasses"]:
+            if x in self.o and x not in seen:
+                if (x not in self.hidden and not self.priv_ctx(x)) or self.excused(x, seen | {x}):
+                    return True
+        return False
+
+    def in_hidden_main(self, i: str) -> bool:
+        o = self.o[i]
+        if o["cls"] in ("Module", "Package") and o["name"] == "__main__" and o["priv"] == "HIDDEN":
+            return True
+        return o["parent"] != "none" and o["parent"] in self.o and self.in_hidden_main(o["parent"])
+
+    def kf_main(self, f: str, g: str) -> bool:
+        return any((self.o[i]["file"] == f and (self.o[i]["ownpage"] or self.o[i]["frag"] == g)) or (i == f and g == "")
+                   for i in self.main_hidden)
+
     def targets_hidden(self, f: str, g: str) -> bool:
         return f in self.hid_pages or (f, g) in self.hid_frags
 
@@ -303,6 +364,8 @@ class View:
     def kf_link(self, page: str, f: str, g: str, prod: str, member: str = "") -> str:
         if f in self.encfiles:
             return "percent-encoded-page-filename"
+        if prod == "overridesNote" and self.targets_hidden(f, g):
+            return "overrides-note-names-hidden-member"
         if prod == "tocBackref" and f == page and g != "":
             return "toc-backref-stale-id"
         if prod in ALLOBJECTS_PRODS and (f, g) in self.superseded_urls:
@@ -349,23 +412,27 @@ def verdict(case: Dict[str, Any]) -> Dict[str, Set[Tuple[Any, ...]]]:
         if not o["ownpage"] and not (o["frag"] != "" and resolves(o["file"], o["frag"])):
             out["VisibleMemberHasAnchor"].add((i, kf))
     h = out["HiddenNoTrace"]
+
+    def tk(f: str, g: str, other: str) -> str:           # class of a trace (Site.tla Verdict.HiddenNoTrace)
+        return "main-module-ignores-rules" if v.kf_main(f, g) else other
     for f in v.hid_pages & (files | v.encfiles):
-        h.add(("file", "", f, "", "", "none"))
+        h.add(("file", "", f, "", "", tk(f, "", "none")))
     for f, g in v.hid_frags:
         if f in anchors and g in anchors[f]:
-            h.add(("anchor", "", f, g, "", "none"))
+            h.add(("anchor", "", f, g, "", tk(f, g, "none")))
     for l in s["links"]:
         if v.targets_hidden(l["file"], l["frag"]):
-            h.add(("link", l["page"], l["file"], l["frag"], l["prod"], v.kf_link(l["page"], l["file"], l["frag"], l["prod"])))
+            h.add(("link", l["page"], l["file"], l["frag"], l["prod"], tk(l["file"], l["frag"], v.kf_link(l["page"], l["file"], l["frag"], l["prod"]))))
     for e in s["entries"]:
         if v.targets_hidden(e["file"], e["frag"]):
-            h.add(("entry", e["page"], e["file"], e["frag"], e["kind"], v.kf_link(e["page"], e["file"], e["frag"], e["kind"])))
+            h.add(("entry", e["page"], e["file"], e["frag"], e["kind"], tk(e["file"], e["frag"], v.kf_link(e["page"], e["file"], e["frag"], e["kind"]))))
     for nm, coll in (("inventory", set(s["inv"])), ("searchDoc", {d["id"] for d in s["docs"]}),
                      ("searchindex", set(s["search"])), ("fullsearchindex", set(s["fsearch"]))):
         for i in v.hid_ids & coll:
-            h.add((nm, "", i, "", "", "none"))
+            h.add((nm, "", i, "", "", tk(i, "", "none")))
     for e in s["entries"]:
-        if e["kind"] in MARKED_KINDS and not e["private"] and (e["file"], e["frag"]) in v.priv_urls:
+        if not e["private"] and ((e["kind"] in MARKED_KINDS and (e["file"], e["frag"]) in v.priv_urls)
+                                 or (e["kind"] == "classIndex" and (e["file"], e["frag"]) in v.class_node_urls)):
             out["PrivateMarked"].add((e["page"], e["kind"], e["file"], e["frag"]))
     for d in s["docs"]:
         if d["privacy"] != "PRIVATE" and d["id"] in v.o and d["id"] not in v.hidden and v.o[d["id"]]["priv"] == "PRIVATE":
@@ -394,8 +461,12 @@ def _facts_class(w: Dict[str, Any]) -> str:
     if w.get("invariant") in ("VisibleHasPage", "VisibleMemberHasAnchor"):
         return "percent-encoded-page-filename" if f.get("page_written_under_encoded_name") else \
             "superseded-duplicate-not-rendered" if f.get("obj_superseded") else "none"
+    if w.get("invariant") == "HiddenNoTrace" and f.get("target_in_hidden_main_module"):
+        return "main-module-ignores-rules"
     if f.get("page_written_under_encoded_name"):
         return "percent-encoded-page-filename"
+    if prod == "overridesNote" and f.get("target_hidden"):
+        return "overrides-note-names-hidden-member"
     if prod == "tocBackref" and inst.get("file") == inst.get("page") and inst.get("frag"):
         return "toc-backref-stale-id"
     if prod in ALLOBJECTS_PRODS and f.get("target_superseded"):
@@ -446,6 +517,15 @@ def kf_link_to_hidden(w: Dict[str, Any]) -> bool:               # C12
         and _facts_class(w) == "link-to-hidden-object"
 
 
+def kf_overrides_note_hidden(w: Dict[str, Any]) -> bool:        # C12
+    return w.get("invariant") == "HiddenNoTrace" and w.get("instance", {}).get("trace") == "entry" \
+        and _facts_class(w) == "overrides-note-names-hidden-member"
+
+
+def kf_main_module_ignores_rules(w: Dict[str, Any]) -> bool:    # C12
+    return w.get("invariant") == "HiddenNoTrace" and _facts_class(w) == "main-module-ignores-rules"
+
+
 def kf_hidden_root_listed(w: Dict[str, Any]) -> bool:           # C12
     return w.get("invariant") == "HiddenNoTrace" and w.get("instance", {}).get("trace") in ("link", "entry") \
         and _facts_class(w) == "hidden-root-listed"
@@ -474,6 +554,7 @@ def witness(case: Dict[str, Any], job: Dict[str, Any], inv: str, inst: Tuple[Any
         instance = {"page": page, "kind": kind, "file": f, "frag": g}
     if inv in ("LinksResolve", "HiddenNoTrace"):
         facts.update({"target_superseded": (f, g) in v.superseded_urls, "target_hidden": v.targets_hidden(f, g),
+                      "target_in_hidden_main_module": v.kf_main(f, g),
                       "page_written_under_encoded_name": f in v.encfiles,
                       "class_has_superseded_base": g in v.o and any(b in v.superseded for b in v.o[g]["mro"]),
                       "target_hidden_root": f in v.hidden_root_files,
@@ -512,7 +593,8 @@ MODEL_SWITCHES = {"link-to-hidden-object": "link-to-hidden-object", "dead-link-t
                   "hidden-root-listed": "hidden-root-listed", "dead-link-hidden-root": "hidden-root-listed",
                   "inherited-docstring-samepage-link": "inherited-docstring-samepage-link",
                   "superseded-duplicate-listed": "superseded-duplicate-listed",
-                  "percent-encoded-page-filename": "percent-encoded-page-filename"}
+                  "percent-encoded-page-filename": "percent-encoded-page-filename",
+                  "overrides-note-names-hidden-member": "overrides-note-names-hidden-member"}
 
 
 def fixed_set() -> str:
@@ -627,6 +709,8 @@ def run_property(ctx: Ctx, prop: str) -> int:
     else:
         ctx.register_matcher("link-to-hidden-object", kf_link_to_hidden)
         ctx.register_matcher("hidden-root-listed", kf_hidden_root_listed)
+        ctx.register_matcher("overrides-note-names-hidden-member", kf_overrides_note_hidden)
+        ctx.register_matcher("main-module-ignores-rules", kf_main_module_ignores_rules)
 
     # ---- design level: TLC judges the predicted site of every model of the family
     k = 2 if ctx.quick else 3
@@ -664,6 +748,18 @@ def run_property(ctx: Ctx, prop: str) -> int:
     for sg, idxs in sorted(sigs.items(), key=lambda kv: (len(kv[1]), kv[0])):
         idxs = sorted(idxs, key=lambda i: (len(recs[i]["nd"]), i))
         chosen += idxs[:1] + rng.sample(idxs[1:], min(per - 1, len(idxs) - 1))
+    # ... and a cover of every (relation, privacy, privacy) combination some model exhibits (Cov in Site.tla): private
+    # base with hidden subclass, hidden member inherited over two levels, hidden annotation target, ...
+    facts_of = [frozenset((c["rel"], c["a"], c["b"]) for c in rec["cov"]) for rec in recs]
+    uncovered = set().union(*facts_of) - set().union(*[facts_of[i] for i in chosen]) if chosen else set().union(*facts_of)
+    ctx.extra["coverage_facts"] = len(set().union(*facts_of))
+    order = sorted(range(len(recs)), key=lambda i: (len(recs[i]["nd"]), sum(recs[i]["feat"].values()), i))
+    while uncovered:
+        best = max(order, key=lambda i: len(facts_of[i] & uncovered))
+        if not facts_of[best] & uncovered:
+            break
+        chosen.append(best)
+        uncovered -= facts_of[best]
     chosen = list(dict.fromkeys(chosen))
     if len(chosen) > budget:
         chosen = chosen[:budget // 2] + rng.sample(chosen[budget // 2:], budget - budget // 2)
@@ -684,14 +780,37 @@ def run_property(ctx: Ctx, prop: str) -> int:
             pass1.append(real_job("%s#0" % nm, srcs, [], THEMES[n % 3], 1 + n % 3, 6, ctx.scratch, len(pass1)))
     extras = []
     for n, nm in enumerate(sorted(EXTRA_PROJECTS)):
-        for vv, rules in enumerate([[], ["PRIVATE:**.f*", "HIDDEN:m.B"], ["HIDDEN:**.A", "PRIVATE:m.Th*"]][:2 if ctx.quick else 3]):
+        for vv, rules in enumerate([[], ["PRIVATE:**.f*", "HIDDEN:m.B", "HIDDEN:pkg.__main__"], ["HIDDEN:**.A", "PRIVATE:m.Th*"]][:2 if ctx.quick else 3]):
             j = real_job("x:%s#%d" % (nm, vv), [], rules, THEMES[(n + vv) % 3], 1 + vv, 6, ctx.scratch, 9000 + 10 * n + vv)
             j.update({"project": nm, "root": str(ctx.scratch / ("xproj%d_%d" % (n, vv)))})
             extras.append(j)
-    res = run_jobs(jobs + extras + pass1, workers)
+    # ---- histories of PrivacyHistory.tla (privacy looked up before a re-export renames the class and its members)
+    rh = ctx.tlc("PrivacyHistory", CFG_HISTORY.format(key="fullName", rids="{1, 2, 3, 4, 5, 6, 7}"), workers=4, check=True, timeout=300)
+    if rh.violated or not rh.printed:
+        raise MachineryError("PrivacyHistory.tla: %s, %d behaviours" % (rh.violated, len(rh.printed)))
+    rneg = ctx.tlc("PrivacyHistory", CFG_HISTORY.format(key="object", rids="{1, 2}"), workers=1, check=False, timeout=300, count=False)
+    ctx.extra["history_design_negative_control"] = "ObservedRight" in rneg.violated
+    if "ObservedRight" not in rneg.violated:
+        raise MachineryError("PrivacyHistory.tla: a cache keyed by object identity must violate ObservedRight")
+    hrecs = rh.printed if not ctx.quick else [r for r in rh.printed if len(r["hist"]) in (3, 6) or r["rid"] in (2, 7)]
+    hjobs = []
+    for n, r in enumerate(hrecs):
+        hjobs.append({"kind": "history", "name": "hist%d" % n, "hist": r["hist"], "privacy": ["%s:%s" % (x["p"], x["m"]) for x in r["rules"]],
+                      "spec_obs": r["obs"], "theme": THEMES[n % 3], "depth": 1 + n % 2, "tocdepth": 6, "predict": True,
+                      "root": str(ctx.scratch / ("hproj%d" % n)), "out": str(ctx.scratch / ("hout%d" % n))})
+    ctx.extra["history_behaviours"] = {"enumerated": len(rh.printed), "replayed": len(hjobs)}
+    res = run_jobs(jobs + extras + hjobs + pass1, workers)
+    for x in res:
+        if x["job"]["kind"] == "history":
+            if "error" in x:
+                raise MachineryError("history replay failed for %s: %s" % (x["job"]["name"], x["error"][-800:]))
+            real = {o["id"]: o["priv"] for o in x["objs"]["objs"]}
+            diff = {v["name"]: [v["priv"], real.get(v["name"])] for v in x["job"]["spec_obs"].values() if real.get(v["name"]) != v["priv"]}
+            if diff:           # the System's answer after the history is not the one PrivacyHistory.tla computes
+                ctx.drift_note({"case": x["job"]["name"], "hist": x["job"]["hist"], "privacy": x["job"]["privacy"], "spec_vs_system": diff})
     pass2 = []
     nvar = 2 if ctx.quick else 6
-    for rj in res[len(jobs) + len(extras):]:
+    for rj in res[len(jobs) + len(extras) + len(hjobs):]:
         if "error" in rj or "objs" not in rj:
             continue
         ids = [o["id"] for o in rj["objs"]["objs"]]
